@@ -413,7 +413,11 @@ ApplyOp(st, s) ==
             emptyrep == f = "repeat" /\ Size(src.sh) = 0
             \* KNOWN FINDING F-C02-2 (trigger): the diagonal einsum of an empty matrix cannot be back-propagated either
             emptydiag == f = "diag" /\ Size(src.sh) = 0
-            st0 == [st EXCEPT !.kf = @ \cup (IF passthru THEN {"F-C04-1"} ELSE {}) \cup (IF emptyrep THEN {"F-C02-1"} ELSE {})
+            \* (same root cause, gradient side: replaying a no-op squeeze on a gradient ARRAY hands back the array itself; when the
+            \*  parent is a detached owner the view's cached gradient then passes the staleness test - None is None - after the
+            \*  parent's gradient was dropped)
+            noopsq == f = "squeeze" /\ sh = src.sh
+            st0 == [st EXCEPT !.kf = @ \cup (IF passthru \/ noopsq THEN {"F-C04-1"} ELSE {}) \cup (IF emptyrep THEN {"F-C02-1"} ELSE {})
                                        \cup (IF emptydiag THEN {"F-C02-2"} ELSE {})]
         IN IF StructIsView(f, s, src, newimap, sh)
            THEN MkView(st0, s, a, sh, g)
@@ -500,7 +504,9 @@ InPlace(st, t, newc, srcs, oldIsInput) ==
       st2 == NewNodeB(st1, rootpar, const, TRUE, nb)
       st3 == [st2 EXCEPT !.H = [h \in DOMAIN @ |->
                                   IF h = r THEN [@[h] EXCEPT !.buf = nb, !.node = Len(st2.N), !.base = 0, !.par = 0]
-                                  ELSE IF h \in fam THEN [@[h] EXCEPT !.buf = nb] ELSE @[h]]]
+                                  \* (re-created views hang off the root of THIS update: when the target had detached
+                                  \*  from a lingering base, its registered views follow it)
+                                  ELSE IF h \in fam THEN [@[h] EXCEPT !.buf = nb, !.base = r] ELSE @[h]]]
   IN Recreate(st3, fam \ {r})
 
 \* NumPy's rule for assigning a value of shape vs into a selection of shape ish
